@@ -125,3 +125,41 @@ func DERConsistent(valid []byte, maxTLV int) []DERMutation {
 	}
 	return out
 }
+
+// BERMixed re-encodes DER as BER in which the constructed values chosen by indefinite(k) (k = running number of the
+// constructed value, in document order) use the indefinite-length form (tag, 0x80, contents, 00 00) while all others keep
+// definite lengths, recomputed for their new contents. Primitive values are copied as they are (an OCTET STRING that wraps
+// DER stays DER: it is a separate encoding).
+func BERMixed(der []byte, indefinite func(k int) bool) (out []byte, nIndef int) {
+	k := 0
+	var enc func(b []byte) []byte
+	enc = func(b []byte) []byte {
+		var res []byte
+		for off := 0; off < len(b); {
+			t, err := rder.ReadStrict(b, off)
+			if err != nil {
+				return append(res, b[off:]...) // not DER below this point: keep verbatim
+			}
+			body := b[off+t.HdrLen : off+t.HdrLen+t.Len]
+			if t.Tag&0x20 == 0 {
+				res = append(res, b[off:off+t.HdrLen+t.Len]...)
+			} else {
+				mine := k
+				k++
+				inner := enc(body)
+				if indefinite(mine) {
+					nIndef++
+					res = append(res, t.Tag, 0x80)
+					res = append(res, inner...)
+					res = append(res, 0, 0)
+				} else {
+					res = append(res, rder.EncLen(t.Tag, len(inner))...)
+					res = append(res, inner...)
+				}
+			}
+			off += t.HdrLen + t.Len
+		}
+		return res
+	}
+	return enc(der), nIndef
+}
